@@ -12,6 +12,9 @@
 (*   Duplicate        the text twice                                       *)
 (*   NestText(n)      an amount wrapped in n pairs of parentheses (a seed) *)
 (*   ChainText(n)     an amount that is a flat chain of n terms (a seed)   *)
+(*   NestChainText(g, n)  g groups nested as each other's left-most        *)
+(*                    operand, each a chain of n operators (a seed): the   *)
+(*                    depths of nesting and of the chains add up           *)
 (* The design-level totality of book-keeping, loading (cycles included),   *)
 (* literals and expressions is NoStuck / Termination in their own modules. *)
 (***************************************************************************)
@@ -33,7 +36,12 @@ Cut(s, i, j) == IF j < i THEN "" ELSE SubSeq(s, i, j)
 NestText(n) == "2024/01/01 nest\n    A  " \o Rep("(", n) \o "1 X" \o Rep(")", n) \o "\n    B\n"
 \* `1 + 1 + ... + 1 X`: no nesting at all in the text, yet a left-deep tree as deep as the chain is long
 ChainText(n) == "2024/01/01 chain\n    A  (" \o Rep("1 + ", n - 1) \o "1 X)\n    B\n"
+\* `(((1 X + 1 X ...) + 1 X ...) + 1 X ...)`: each group is the left-most operand of the enclosing chain, so the tree is
+\* as deep as all the chains together although no group is nested deeply and no single chain is long
+NestChainText(g, n) == "2024/01/01 nestchain\n    A  " \o Rep("(", g) \o "1 X" \o Rep(Rep(" + 1 X", n) \o ")", g) \o "\n    B\n"
+NestChainShapes == IF NestDepths = {} THEN {} ELSE {<<12, 90>>, <<8, 1000>>, <<100, 300>>, <<100, 1000>>, <<127, 1023>>}
 Init == \/ text \in Seeds /\ steps = 0 /\ lastop = "seed"
+        \/ \E p \in NestChainShapes : text = NestChainText(p[1], p[2]) /\ steps = MaxSteps /\ lastop = "nestchain"
         \/ \E n \in NestDepths : text = NestText(n) /\ steps = MaxSteps /\ lastop = "nest"
         \/ \E n \in NestDepths : text = ChainText(n) /\ steps = MaxSteps /\ lastop = "chain"
 
